@@ -62,7 +62,13 @@ theorem step_inv (hmode : sys.mode = .byId) (hinv : Inv sys s) (t : Tid) : Inv s
             cases hl : ccLookup sys.mode s.stubs s.callCache
                 { site := site, const := const, aux := kind.isAux, args := (th.stack.take nargs).reverse } with
             | some v => exact inv_get hmode hinv hth hp hins hl
-            | none => exact inv_advance_local hinv hth hp hins hrest
+            | none =>
+              simp only
+              cases hcr : created s t site const (th.stack.take nargs).reverse kind with
+              | none => exact inv_advance_local hinv hth hp hins hrest
+              | some p =>
+                obtain ⟨s1, r⟩ := p
+                exact inv_look_miss hinv hth hp hins hcr
           | store r => exact inv_store hmode hinv hth hp hins
 
 theorem init_inv (sys : Sys) (reqs : List (TyId × Nat)) (hbal : ∀ r ∈ reqs, balanced (sys.body r.1) = true) :
